@@ -428,6 +428,9 @@ impl Database {
 
     /// Flushes all pending writes to disk.
     pub fn flush(&self) -> DatabaseResult<()> {
+        // A checkpoint must not overlap running statements (see the task runner's gate).
+        let gate = self.task_runner.gate();
+        let _alone = gate.write();
         self.pager.write().flush()?;
         Ok(())
     }
@@ -508,7 +511,7 @@ impl Database {
         let catalog = self.catalog.clone();
         let coordinator = self.coordinator.clone();
 
-        let stats = self.task_runner.run_with_result(move |_ctx| {
+        let stats = self.task_runner.run_exclusive_with_result(move |_ctx| {
             // Abort all active transactions
             let aborted_txs = coordinator.abort_all();
             let oldest_active_xid = coordinator.get_last_committed();
